@@ -783,6 +783,22 @@ func (ls *LState) isStarted() bool {
 	return ls.currentFrame != nil
 }
 
+// padResumeValues is called on a suspended thread after the n values of a resume have been pushed:
+// they are the results of the pending yield, so the ones the call instruction expects beyond n are nil.
+func (ls *LState) padResumeValues(n int) {
+	cf := ls.currentFrame
+	if cf == nil || cf.Fn.IsG || cf.Pc == 0 {
+		return
+	}
+	inst := cf.Fn.Proto.Code[cf.Pc-1]
+	if opGetOpCode(inst) != OP_CALL {
+		return
+	}
+	for want := opGetArgC(inst) - 1; n < want; n++ {
+		ls.Push(LNil)
+	}
+}
+
 func (ls *LState) kill() {
 	ls.Dead = true
 	if ls.ctxCancelFn != nil {
@@ -1995,6 +2011,7 @@ func (ls *LState) Resume(th *LState, fn *LFunction, args ...LValue) (ResumeState
 		for _, arg := range args {
 			th.Push(arg)
 		}
+		th.padResumeValues(len(args))
 	}
 	top := ls.GetTop()
 	threadRun(th)
